@@ -53,6 +53,19 @@ fn run_suite(rep: &mut Report, rng: &mut Rng, n: usize, s: &Suite) {
     for (pi, (sig, cmds)) in progs.iter().enumerate() {
         rep.evaluations += 1;
         let Some(mut eg) = session::fresh_engine(sig, s.threads) else { rep.violate("correspondence", "setup", "header rejected".into(), json!({"header": sig.header()})); continue };
+        // with a fault stream the heads are not monotone (`panic`): a panicking match is "already applied" for the
+        // semi-naive engine and fires again for the naive one, so outcomes legitimately differ from the (naive) model.
+        // The model comparison then uses the engine with seminaive off; the semi-naive engine is still run on the same
+        // commands and held to everything that does not depend on re-firing: no panic, canonical after every command.
+        if s.opts.faults {
+            eg.seminaive = false;
+            if let Some(mut semi) = session::fresh_engine(sig, s.threads) {
+                for (k, st) in session::run_engine(&mut semi, sig, cmds).iter().enumerate() {
+                    if st.outcome.starts_with("panic") { rep.violate("property", &format!("{}-engine-panic", s.id.to_lowercase()), format!("[semi-naive] command `{}` made the engine panic: {}", st.text, st.outcome), json!({"program": prog_text(sig, cmds, k)})); break; }
+                    if let Some(d) = &st.defects { rep.violate("property", &format!("{}-not-canonical", s.id.to_lowercase()), format!("[semi-naive] after `{}` ({}): {d}", st.text, st.outcome), json!({"program": prog_text(sig, cmds, k)})); break; }
+                }
+            }
+        }
         let steps = session::run_engine(&mut eg, sig, cmds);
         if pi < 2 { rep.sample(json!(prog_text(sig, cmds, cmds.len().saturating_sub(1).min(14)))); }
         rep.traces_vs_model += 1;
